@@ -12,6 +12,7 @@ body while ``max_connections`` other connections are being served and still open
 from __future__ import annotations
 
 import contextlib
+import copy
 import itertools
 import os
 import shutil
@@ -26,7 +27,7 @@ from lib.harness import SCRATCH, Check, Outcome
 
 PROPERTY = "C41"
 RULE = (
-    "Hypothesis: E1 program (1-3 methods, unary/producer/exchange, headers, logs, raise/finish scripts) × 2-3 client scripts "
+    "Hypothesis: E1 program (1-3 methods, unary/producer/exchange, headers, logs, raise/finish scripts) × 2-3 (with a limit: 2-4) client scripts "
     "of 1-4 calls each (exhaust / take k then close|cancel / 0-4 exchange inputs) × transport ∈ {serve_unix, serve_tcp} "
     "(threaded=True, real sockets) × max_connections ∈ {None, 1, 2} × schedule = list of 6-40 choices (rotation afterwards); at every decision point "
     "the choice selects one parked method body (clients in index order) or 'connect the next client'.  Non-trivial = two "
@@ -36,8 +37,9 @@ RULE = (
 ASSUMPTIONS = [
     "gates sit at the first statement of every implementation method body (prog_runtime.record → HOOKS); socket I/O between "
     "bodies is not preempted by the harness (stated limit of the DESIGN entry)",
-    "connection ↔ client attribution is exact because at most one un-attributed client action is in flight at a time; at most "
-    "one connection is left queued for a max_connections slot at a time",
+    "connection ↔ client attribution is exact: every generated method gets an extra parameter who and client i passes who=i, so "
+    "the first recorded body of a server thread names its client; up to 3 connections may be queued for a slot at once, which of "
+    "them the server admits first is accepted either way",
     "the accept loop is stopped through the public idle_timeout (0.05 s) after the last client closed; the harness never lets the "
     "number of accepted connections drop to zero before the last client has connected",
     "a bounded look (60 ms) for a gate arrival that must not happen only limits detection power; no verdict depends on time",
@@ -84,13 +86,15 @@ def cases(draw: st.DrawFn) -> dict[str, Any]:
     kinds = ["producer", "exchange", "producer", "exchange", "unary"]
     n_methods = draw(st.sampled_from([1, 2, 3]))
     methods = [draw(programs._method(i, kinds, False, False)) for i in range(n_methods)]
-    n_clients = draw(st.sampled_from([3, 2]))
-    scripts = [draw(st.lists(_call(methods), min_size=1, max_size=4)) for _ in range(n_clients)]
+    m = draw(st.sampled_from([None, 2, 1, None, 1, 2]))
+    # with a limit, up to 4 clients so that two or three connections can be queued for a slot at the same time
+    n_clients = draw(st.sampled_from([3, 2] if m is None else [3, 4, 2, 4]))
+    scripts = [draw(st.lists(_call(methods), min_size=1, max_size=4 if n_clients < 4 else 3)) for _ in range(n_clients)]
     return {
         "methods": methods,
         "scripts": scripts,
         "t": draw(st.sampled_from(["unix", "tcp"])),
-        "max_connections": draw(st.sampled_from([None, 2, 1, None, 2])),
+        "max_connections": m,
         "choices": draw(st.lists(st.sampled_from([1, 0, 2, 3, 4, 5]), min_size=6, max_size=40)),
     }
 
@@ -111,7 +115,13 @@ def run_case(case: dict[str, Any]) -> Outcome:
     from vgi_rpc.rpc import RpcConnection, RpcServer, TcpTransport, UnixTransport, serve_tcp, serve_unix
 
     out = Outcome()
-    methods, scripts, t, m = case["methods"], case["scripts"], case["t"], case["max_connections"]
+    t, m = case["t"], case["max_connections"]
+    # every method gets one more parameter, ``who``, and client i passes who=i: the invocation recorder then tells
+    # exactly which client's request a server connection thread is executing (see lib/c41_gates.py)
+    methods = copy.deepcopy(case["methods"])
+    for mm in methods:
+        mm["params"] = [*mm["params"], {"name": "who", "type": "int"}]
+    scripts = [[{**c, "args": {**c["args"], "who": ci}} for c in sc] for ci, sc in enumerate(case["scripts"])]
     n = len(scripts)
     spec = {"methods": methods, "calls": [c for s in scripts for c in s]}
     run_id = f"c41-{os.getpid()}-{next(_counter)}"
@@ -275,6 +285,7 @@ def run_case(case: dict[str, Any]) -> Outcome:
         f"max_connections={m}",
         f"clients={n}",
         f"max_served={gates.max_served}",
+        f"max_queued={gates.max_queued}",
         "streams_overlap" if overlap else "no_stream_overlap",
         f"switches={'0' if switches == 0 else '1-3' if switches <= 3 else '4+'}",
     )
